@@ -136,6 +136,8 @@ def build_class(spec, name=None):
             else:
                 oattrs[oname] = Parameter('optional parameter', _FR(), optional=True)
         blist[-1] = type('WithOptional', (blist[-1],), oattrs)
+    if spec.get('enablePoll') is False:
+        attrs['enablePoll'] = False       # never polled: the poll thread exists for the start-up writes only
     if late_attrs:
         mid = type('WithoutLimits', tuple(blist), attrs)
         blist, attrs = [mid], dict(late_attrs, __doc__='adds limit parameters')
